@@ -37,6 +37,8 @@ impl<const N: usize> FixedBuf<N> {
             old(self).wi() < old(self).ri() + num_bytes ==> r is None && final(self).ri() == old(self).ri() && final(self).wi() == old(self).wi(),
             old(self).wi() >= old(self).ri() + num_bytes ==> r is Some
                 && r->Some_0@ == old(self).mem().subrange(old(self).ri() as int, old(self).ri() + num_bytes)
+                && r->Some_0@ == old(self).rd().subrange(0, num_bytes as int)
+                && final(self).rd() == old(self).rd().subrange(num_bytes as int, old(self).rd().len() as int)
                 && (if old(self).ri() + num_bytes == old(self).wi() { final(self).ri() == 0 && final(self).wi() == 0 }
                     else { final(self).ri() == old(self).ri() + num_bytes && final(self).wi() == old(self).wi() }),
     { unimplemented!() }
@@ -53,6 +55,7 @@ impl<const N: usize> FixedBuf<N> {
             final(r)@.len() == r@.len() ==> final(self).wf(),
             final(self).ri() == old(self).ri(), final(self).wi() == old(self).wi(),
             final(self).mem() == old(self).mem().subrange(0, old(self).wi() as int) + final(r)@,
+            final(r)@.len() == r@.len() ==> final(self).rd() == old(self).rd(),   // writing into the spare room leaves the readable bytes alone
     { unimplemented!() }
     // panics ("write would overflow") unless the bytes fit
     #[verifier::external_body]
